@@ -177,6 +177,40 @@ def _fragmenter(hdr, lh, md_kind, d_kind):
     return run
 
 
+def _fragmenter_unrolled(hdr, lh):
+    """BOUNDED stand-in that does not depend on the shape of the fragmenter's loops: fragment size 64, metadata and data of
+    symbolic content and symbolic lengths up to three fragments in total; every loop is unrolled.  Same clauses as the
+    unbounded harness (they are stated on the yielded fragments, not on the loops)."""
+    def run(E):
+        fs = 64
+        data = E.input('data', E.fresh_bytes('data', 0, 130))
+        md = E.input('metadata', E.fresh_bytes('metadata', 0, 130))
+        E.assume(data.len_term() + md.len_term() <= 150)
+        E.input('fragment_size', fs)
+        g = Ghost(E)
+        E.unroll_limit = 12
+        gen = E.call(E.lookup('rsocket/frame_fragmenter.py::data_to_fragments_if_required'), [data, md, hdr, fs, lh])
+        E.run_generator(gen, make_on_yield(E, g, data, md, fs, hdr, lh))
+        E.cover('generator-finished')
+        mlen, dlen = blen(md), blen(data)
+        E.prove('end:at_least_one_fragment', I(g.count) >= 1)
+        E.prove('end:last_fragment_was_flagged', B(g.last_seen))
+        E.prove('end:all_metadata_emitted', I(g.md_emitted) == mlen)
+        E.prove('end:all_data_emitted', I(g.d_emitted) == dlen)
+        B1 = fs - hdr - (3 if lh else 0)
+        E.prove('end:single_fragment_iff_it_fits', z3.Implies(mlen + dlen <= B1, I(g.count) == 1))
+    return run
+
+
+for _hdr in (6, 10):
+    for _lh in (True, False):
+        harness('c03.fragmenter.unrolled.bounded[hdr=%d,length_header=%s]' % (_hdr, _lh), ['C03', 'C01'], kind='bounded',
+                functions=[ITER, FF + '.__init__', 'rsocket/frame_fragmenter.py::data_to_fragments_if_required'], replay='c03_fragmenter',
+                max_paths=4000,
+                assumptions=['BOUNDED stand-in: fragment size 64, metadata + data <= 150 bytes (up to three fragments), symbolic contents and '
+                             'lengths, loops unrolled'])(_fragmenter_unrolled(_hdr, _lh))
+
+
 for _hdr in (6, 10):
     for _lh in (True, False):
         for _mk in ('none', 'bytes'):
@@ -184,7 +218,7 @@ for _hdr in (6, 10):
                 harness('c03.fragmenter[hdr=%d,length_header=%s,md=%s,data=%s]' % (_hdr, _lh, _mk, _dk), ['C03', 'C01'],
                         functions=[ITER, FF + '.__init__', FF + '._get_next_fragment_body_size', FRAG + '.__init__',
                                    'rsocket/frame_fragmenter.py::data_to_fragments_if_required'],
-                        replay='c03_fragmenter',
+                        replay='c03_fragmenter', fallback=r'^c03\.fragmenter\.unrolled\.bounded',
                         assumptions=['io.BytesIO.read(n) returns buf[pos:pos+n] and advances pos (modelled; conformance-checked)'])(
                     _fragmenter(_hdr, _lh, _mk, _dk))
 
